@@ -157,6 +157,22 @@ if item is not None:
         if int(fac.full_dim) != n:
             mism.append({"key": f"C16:full_dim:flat={tri(n)}", "what": f"build_factory: packed length {tri(n)} = {n}({n}+1)/2 gives full_dim {fac.full_dim}"})
             break
+    # every spelling of the double type that uproot-custom's PrimitiveFactory maps to 'd' must be expanded alike
+    try:
+        from uproot_custom import PrimitiveFactory as _PF
+        spellings = sorted(k for k, v in _PF.typenames.items() if v == "d")
+    except Exception:
+        spellings = ["double", "Double_t"]
+    for sp in spellings:
+        si = {"fName": "m_err", "fArrayDim": 1, "fMaxIndex": np.array([15, 0, 0, 0, 0], dtype=np.int32), "fTypeName": sp, "fType": 28}
+        try:
+            fac = F.build_factory(sp, si, {}, item); n_factory += 1
+            okf = fac is not None and int(fac.full_dim) == 5 and int(fac.flat_size) == 15
+        except Exception as e:
+            okf = False
+        if not okf:
+            mism.append({"key": f"C16:not-expanded:type-name:{sp}", "what": f"a listed packed member whose streamer type name is spelled {sp!r} is not given to the "
+                         f"symmetric-matrix factory (it would come back as the flat packed vector)"})
     for fmax, adim, flat in (([3, 5, 0, 0, 0], 2, 15), ([2, 3, 0, 0, 0], 2, 6), ([6, 9, 9, 9, 9], 1, 6), ([1, 1, 1, 0, 0], 3, 1)):
         fac = build(fmax, adim); n_factory += 1
         if int(fac.flat_size) != flat:
